@@ -187,7 +187,15 @@ def gen_case(rng, it):
             comments[key] = [f"see {key} : 410730", f"{key}: {key} : {key}",
                              f"old {key} : x, new {key} : y", f"{key} :"][(it // 5) % 4]
     mode = ["plain", "zip-x.csv", "zip-x.zip", "zip-noext", "zip-dotted",
-            "archive"][it % 6]
+            "archive", "zip-x.ZIP"][it % 7]
+    if it % 9 == 4:
+        # a frame of text columns only, one row of which repeats the column names (a
+        # units / legend row)
+        nrow_ = len(cols[0]["values"])
+        cols = [{"name": c["name"], "kind": "text",
+                 "values": [rand_text(rng) for _ in range(nrow_)]} for c in cols]
+        for c in cols:
+            c["values"][nrow_ // 2] = c["name"].strip() or "x"
     fmt = ["%0.5f", "%0.5f", "%0.2f", "%0.10e", None][int(rng.integers(0, 5))]
     return {"kind": "csv", "cols": cols, "comments": comments, "mode": mode,
             "float_format": fmt, "sysinfo": bool(it % 2),
@@ -249,6 +257,10 @@ def run_case(ctx, case):
             kw = {"compress": True}
         elif mode == "zip-x.zip":
             fname = wd / f"{stem}.zip"
+            kw = {"compress": True}
+        elif mode == "zip-x.ZIP":
+            # the extension as some systems and users write it
+            fname = wd / f"{stem}.{['ZIP', 'Zip', 'zIP'][ctx.evaluations % 3]}"
             kw = {"compress": True}
         elif mode == "zip-noext":
             fname = wd / stem
